@@ -92,6 +92,17 @@ struct Case {
     abandoned: bool,
     /// sockets for driving the real `handle_housekeeping` (created by the first `hktick`)
     shell: Option<ShellIo>,
+    /// time of the first REG1 of the attempt that is outstanding now (side observations only)
+    attempt_started_at: u64,
+    /// links whose uplink binder is made to fail (op `bindfail`)
+    bind_fail: Vec<bool>,
+}
+
+/// A binder that refuses: `reconnect_uplink` fails, housekeeping falls back to `mark_for_recovery`.
+fn failing_binder() -> Arc<dyn srtla_send::net::UplinkBinder> {
+    Arc::new(srtla_send::net::CallbackBinder(|_fd: std::os::fd::RawFd, _ip: std::net::IpAddr| -> std::io::Result<()> {
+        Err(std::io::Error::other("verif: interface gone"))
+    }))
 }
 
 /// The shell-owned I/O the real `handle_housekeeping` needs: one connected loopback socket per
@@ -140,6 +151,8 @@ fn fresh_case() -> Case {
         n_bc: 0,
         abandoned: false,
         shell: None,
+        attempt_started_at: 0,
+        bind_fail: Vec::new(),
     }
 }
 
@@ -220,6 +233,9 @@ impl Case {
                     id_tag(&self.cur_id)
                 ),
             );
+        }
+        if self.outstanding.is_empty() {
+            self.attempt_started_at = now;
         }
         self.outstanding.insert(target);
         self.last_reg1_at = now;
@@ -675,12 +691,24 @@ impl Case {
     /// housekeeping takes its reconnect branch for them (timed out, retry allowed); every other link is
     /// put into a state in which it does not (connected: just heard from; disconnected: retry interval
     /// not elapsed). Returns, per uplink, the REG1/REG2 datagrams that arrived at that uplink's receiver.
-    fn do_hktick(&mut self, env: &RegEnv, now: u64, rcs: &[usize], mon: &mut Mon) -> Option<Vec<Vec<Vec<u8>>>> {
+    /// `forced = false` (op `nattick`): link state is left alone; the links that took the reconnect branch
+    /// are returned next to the wire view, and the monitors use them.
+    fn do_hktick(
+        &mut self,
+        env: &RegEnv,
+        now: u64,
+        rcs: &[usize],
+        forced: bool,
+        mon: &mut Mon,
+    ) -> Option<(Vec<Vec<Vec<u8>>>, Vec<usize>)> {
         self.ensure_shell(env);
         verif_clock::set(Some(now));
         let pre = self.reg.verif_state();
         let pre_conn = self.conn_flags();
         for (i, c) in self.conns.iter_mut().enumerate() {
+            if !forced {
+                break;
+            }
             if rcs.contains(&i) {
                 c.last_received = if c.connected { Some(now.saturating_sub(c.verif_private().conn_timeout_ms)) } else { None };
                 c.reconnection.startup_grace_deadline_ms = 0;
@@ -735,7 +763,7 @@ impl Case {
         let post = self.reg.verif_state();
         let probing_completed = (pre.probing_state == 1 || pre.probing_state == 2) && post.probing_state == 3;
         for i in rcs {
-            if !eff.contains(i) {
+            if forced && !eff.contains(i) {
                 // housekeeping gives the link selected by a just-completed probing phase a new grace period
                 if probing_completed && self.conns[*i].reconnection.connection_established_ms == 0 {
                     mon.count("hk-grace-reset-skips-reconnect");
@@ -744,7 +772,7 @@ impl Case {
                 }
             }
         }
-        if eff.iter().any(|i| !rcs.contains(i)) {
+        if forced && eff.iter().any(|i| !rcs.contains(i)) {
             mon.fail(P, "harness:cannot-hold-link", format!("hktick now={now}: reconnect branch taken by {eff:?}, asked {rcs:?}"));
         }
         let rcs: &[usize] = &eff;
@@ -781,6 +809,8 @@ impl Case {
                         }
                     } else {
                         mon.count("hk-reg1-resend");
+                        // side observation (not alarmed): the re-send renews the 4000 ms wait
+                        mon.count("side:deadline-renewed-by-housekeeping-resend");
                     }
                     self.on_reg1_emit(i, p, now, mon, &what);
                 } else {
@@ -831,8 +861,13 @@ impl Case {
                 format!("{what}: attempt older than 4000 ms still pending after the pass (pto before = {})", pre.pending_timeout_at_ms),
             );
         }
+        if !self.outstanding.is_empty() && now >= self.attempt_started_at + 4000 {
+            // side observation (not alarmed): measured from the FIRST REG1 of this attempt the 4 s are over,
+            // but housekeeping re-sends keep renewing the wait
+            mon.count("side:attempt-older-than-4s-still-pending");
+        }
         self.after_op(&pre_conn, None, mon, &what);
-        Some(per_link)
+        Some((per_link, eff))
     }
 
     fn obs_wire(&self, per_link: &[Vec<Vec<u8>>]) -> String {
@@ -969,18 +1004,39 @@ fn exec_op(case: &mut Case, env: &RegEnv, toks: &[&str], mon: &mut Mon) -> Strin
         };
     }
     match toks {
-        ["init", n, seed] => {
+        ["init", n, seed] | ["init", n, seed, _] => {
             let n = get!(parse_u(n)) as usize;
             let seed = get!(parse_u(seed));
+            let born: Option<u64> = match toks.get(3) {
+                Some(t) => Some(get!(parse_u(t))),
+                None => None,
+            };
             if case.inited || n > 8 {
                 return BAD.into();
             }
-            verif_clock::set(Some(0));
-            let mut conns = env.rt.block_on(srtla_core::test_helpers::create_test_connections(n));
-            for c in conns.iter_mut() {
-                // a fresh uplink is not connected (SrtlaConnection::new: connected = false)
-                c.mark_for_recovery();
-            }
+            verif_clock::set(Some(born.unwrap_or(0)));
+            let conns: SmallVec<SrtlaConnection, 4> = match born {
+                // natural link state: exactly what connect_uplink builds at `born`
+                Some(t0) => (0..n)
+                    .map(|i| {
+                        SrtlaConnection::new_registering(
+                            900_000 + i as u64,
+                            format!("nat-{i}"),
+                            std::net::IpAddr::V4(std::net::Ipv4Addr::LOCALHOST),
+                            t0,
+                        )
+                    })
+                    .collect(),
+                None => {
+                    let mut conns = env.rt.block_on(srtla_core::test_helpers::create_test_connections(n));
+                    for c in conns.iter_mut() {
+                        // a fresh uplink is not connected (SrtlaConnection::new_registering: connected = false)
+                        c.mark_for_recovery();
+                    }
+                    conns
+                }
+            };
+            case.bind_fail = vec![false; n];
             case.conns = conns;
             case.n = n;
             case.inited = true;
@@ -1072,10 +1128,51 @@ fn exec_op(case: &mut Case, env: &RegEnv, toks: &[&str], mon: &mut Mon) -> Strin
             }
             case.fresh = false;
             mon.count("hktick-real-housekeeping");
-            match case.do_hktick(env, now, &rcs, mon) {
-                Some(per_link) => case.obs_wire(&per_link),
+            match case.do_hktick(env, now, &rcs, true, mon) {
+                Some((per_link, _)) => case.obs_wire(&per_link),
                 None => "PANIC".into(),
             }
+        }
+        ["nattick", now, rcs] => {
+            // the REAL handle_housekeeping on the links' natural state; `rcs` must be the set of links
+            // that take the reconnect branch (the generator learns it from a scratch run)
+            let now = get!(parse_u(now));
+            let rcs: Vec<usize> = get!(parse_list::<u64>(rcs)).into_iter().map(|x| x as usize).collect();
+            if !case.inited || rcs.iter().any(|i| *i >= case.n) || !strictly_inc(&rcs) {
+                return BAD.into();
+            }
+            case.fresh = false;
+            mon.count("nattick-real-housekeeping-natural-link-state");
+            match case.do_hktick(env, now, &rcs, false, mon) {
+                Some((per_link, eff)) => {
+                    if eff == rcs {
+                        case.obs_wire(&per_link)
+                    } else {
+                        format!("reconnect-set-differs real={}", join_list(&eff))
+                    }
+                }
+                None => "PANIC".into(),
+            }
+        }
+        ["bindfail", idx, flag] => {
+            let idx = get!(parse_u(idx)) as usize;
+            let flag = match *flag {
+                "1" => true,
+                "0" => false,
+                _ => return BAD.into(),
+            };
+            if !case.inited || idx >= case.n {
+                return BAD.into();
+            }
+            case.fresh = false;
+            case.ensure_shell(env);
+            case.bind_fail[idx] = flag;
+            let id = case.conns[idx].conn_id;
+            if let Some(io) = case.shell.as_mut().unwrap().conn_io.get_mut(&id) {
+                io.binder = if flag { failing_binder() } else { Arc::new(SourceIpBinder) };
+            }
+            mon.count("bindfail");
+            case.obs(&[])
         }
         ["clear", now] => {
             let now = get!(parse_u(now));
@@ -1174,7 +1271,15 @@ impl RegComp {
             let _ = std::panic::catch_unwind(std::panic::AssertUnwindSafe(|| exec_op(shadow, &env, &toks, mon)));
             ops.push(line);
         };
-        push(&mut ops, &mut shadow, &mut mon, format!("init {} {}", n, rng.below(1000)));
+        // "natural mode": links are built as connect_uplink builds them and evolve by the real
+        // is_timed_out / should_attempt_reconnect / grace logic; passes run through the real
+        // handle_housekeeping without forcing, the reconnecting set is learnt from the scratch run
+        let natural_mode = shell_mode && rng.chance(1, 2);
+        if natural_mode {
+            push(&mut ops, &mut shadow, &mut mon, format!("init {} {} {}", n, rng.below(1000), t));
+        } else {
+            push(&mut ops, &mut shadow, &mut mon, format!("init {} {}", n, rng.below(1000)));
+        }
         let probing = rng.chance(2, 5);
         if probing {
             push(&mut ops, &mut shadow, &mut mon, format!("probe_start {t}"));
@@ -1183,7 +1288,7 @@ impl RegComp {
         let malformed = rng.chance(1, 25);
         let len = rng.range(5, 30) as usize;
         let mut id_seed = 1000 + rng.below(1000);
-        while ops.len() < len + 1 {
+        while ops.len() < len + 1 && ops.len() < 64 {
             let st = shadow.reg.verif_state();
             let conn = shadow.conn_flags();
             // --- advance time, biased to the live deadlines
@@ -1349,6 +1454,32 @@ impl RegComp {
                 Some(rest) if shell_mode => format!("hkpkt {rest}"),
                 _ => line,
             };
+            if natural_mode {
+                if rng.chance(1, 12) {
+                    let l = rng.below(n as u64) as usize;
+                    let flag = !shadow.bind_fail.get(l).copied().unwrap_or(false);
+                    push(&mut ops, &mut shadow, &mut mon, format!("bindfail {l} {}", u8::from(flag)));
+                }
+                if rng.chance(1, 10) {
+                    // a keepalive reply keeps a connected link alive (refreshes last_received)
+                    let l = rng.below(n as u64) as usize;
+                    push(&mut ops, &mut shadow, &mut mon, format!("hkpkt {l} {t} 9000 10 0"));
+                }
+                if line.starts_with("tick ") || line.starts_with("hktick ") {
+                    // housekeeping runs about once a second
+                    if rng.chance(2, 3) {
+                        t += 1000 - (t % 1000);
+                    }
+                    let eff = match std::panic::catch_unwind(std::panic::AssertUnwindSafe(|| {
+                        shadow.do_hktick(&env, t, &[], false, &mut mon)
+                    })) {
+                        Ok(Some((_, eff))) => eff,
+                        _ => Vec::new(),
+                    };
+                    ops.push(format!("nattick {t} {}", join_list(&eff)));
+                    continue;
+                }
+            }
             push(&mut ops, &mut shadow, &mut mon, line);
         }
         ops
@@ -1529,8 +1660,11 @@ impl Component for RegComp {
          pass mirrored call by call / run through the REAL handle_housekeeping over loopback sockets (4*12^4 = 82944 / \
          4*12^5 = 995328 cases), thorough also every word of depth 4 over 16 letters on 3 uplinks (65536 cases); then \
          state-aware random walk over 1-4 (mostly 2-3) uplinks, 5-30 events per case, 40% with a start-up probing \
-         phase, 40% with every housekeeping pass run through the REAL handle_housekeeping (op hktick; links forced \
-         into / kept out of the reconnect branch), 25% with housekeeping split into its atomic steps, 4% with malformed ops; packets REG_NGP / REG2 \
+         phase, 40% with every packet through the REAL handle_uplink_packet (op hkpkt) and every housekeeping pass \
+         through the REAL handle_housekeeping over loopback sockets - half of those with link state forced so \
+         that the requested links take the reconnect branch (op hktick), half with links built as connect_uplink \
+         builds them and left to the real timeout / grace / retry logic, ~1 s pass cadence, binder failures \
+         (op nattick / bindfail), 25% with housekeeping split into its atomic steps, 4% with malformed ops; packets REG_NGP / REG2 \
          (full 258, over-long, short 2..257, from the pending uplink, from another uplink, late, duplicated) / REG3 / \
          REG_ERR (pending uplink, other uplink, idle) / other types and lengths 0..1; times placed at T-1, T, T+1 of \
          the live pending / probing deadline and the REG1 retry throttle, steps of 999/1000/1001/1999/2000/2001/3999/\
